@@ -107,6 +107,13 @@ def run_variants(lib, ast, env, texts, kind, must, want=None, shared=None):
             o['repr'] = whole(repr(r['result'])) if r['error'] is None else 'error ' + str(r['error'])
         vs.append(o)
     out = {'kind': kind, 'ast': strip_hints(ast), 'env': env, 'must': must, 'vars': vs, 'in': texts}
+    from .c10 import array_meets_array
+    try:
+        # where an operator may combine two arrays the value is C06's subject (and its recorded finding about nested one-element
+        # arrays): here the spellings must still agree with each other, and the events and calls with the specification
+        out['novalue'] = bool(array_meets_array(out['ast'], env))
+    except Exception:
+        out['novalue'] = False
     if want is not None:
         out['want'] = whole(want)
     return out
